@@ -1,4 +1,360 @@
-/- C07 — model and specification (stub; see HACKING.md) -/
+/-
+  C07 — writing preserves order, keeps unknown lines verbatim, and is a fixed point.
+
+  Model of (shelxfile/shelx/shelx.py, with fixes/C07_1 and fixes/C07_2 applied):
+    Shelxfile._parse_cards       the glue loop (`multiline_test`, blanking of consumed lines), the position
+                                 preserving replacement of a line by an object (`_append_card/_assign_card`),
+                                 absorption of the 2nd+ SFAC/FVAR line (`delete_on_write`), lines the
+                                 if/elif chain leaves as text                              -> `step`, `parseAux`, `parse`
+    Shelxfile.write_shelx_file   skip `delete_on_write`, skip `''`, print every other item -> `emit`, `write`
+    Shelxfile._find_included_files / _read_included_file                                    -> `spliceOld` (code before
+                                 fixes/C07_1: spliced lines are ordinary lines), `spliceNew` (repaired: spliced
+                                 lines are in `delete_on_write`)
+  The text type `α` is a parameter (`String` in the driver, `Nat` in `decide`d witnesses). What a physical line
+  *is* for the parse loop is carried by the record `PLine` (flags computed by the lexer at the end of this file,
+  which mirrors `line.startswith(' ')`, `multiline_test`, `is_atom` and the keyword chain); the printers of the
+  objects are a parameter `Printer` — the theorems say which facts about them are used.
+
+  Specification (code independent): `logicalHeads`/`keySeq` (SHELXL's own notion of a logical line: a line that
+  is not blank, not indented and not the continuation of a line ending in `=`), `coalesceFrom` ("an SFAC/FVAR
+  line is dropped iff an earlier line has the same keyword").
+-/
 namespace Shelx.C07
+
+/-! ### data -/
+
+inductive Tab | sfac | fvar
+deriving DecidableEq, Repr
+
+/-- what `_parse_cards` does with the logical line that starts at a physical line -/
+inductive Cls
+  | raw            -- no branch stores an object: the text stays in `_reslist`
+  | obj            -- `_assign_card/_append_card`: an instruction object replaces the line
+  | atom           -- `Atom` object replaces the line
+  | tab (t : Tab)  -- SFAC with elements / FVAR with values: the shared table object
+deriving DecidableEq, Repr
+
+inductive Mode | top | objCont | rawCont
+deriving DecidableEq, Repr
+
+/-- one physical line as the parse loop sees it -/
+structure PLine (α : Type) where
+  text : α
+  indented : Bool      -- `line.startswith(' ')`
+  empty : Bool         -- `line == ''`: dropped by `write_shelx_file`
+  cont : Bool          -- `multiline_test(line)`: the logical line continues on the next physical line
+  cls : Cls            -- for a head: fate of the logical line that starts here
+  key : α × α          -- for a head: (keyword, first token)
+  vals : List α        -- for an SFAC/FVAR head: the elements / values it contributes to the table
+  incl : Option α      -- `+name`: name of the include file
+  spliced : Bool       -- the line was spliced in from an include file (its index is in `delete_on_write`)
+deriving DecidableEq, Repr
+
+/-- `line.startswith(' ') or line == ''`: such a line never starts a logical line -/
+def PLine.skip {α : Type} (l : PLine α) : Bool := l.indented || l.empty
+
+/-- an entry of `_reslist` after parsing; every entry remembers the physical line whose position it has -/
+inductive Item (α : Type)
+  | str (l : PLine α)               -- still text (a line the loop skips, or a head no branch replaces)
+  | contKept (l : PLine α)          -- continuation line of a raw head. (In the code the head's string holds it,
+                                    --  joined by '\n', and this position is blanked; the model keeps it at its own
+                                    --  position, which writes the same file and keeps `parse` a position map.)
+  | blanked (l : PLine α)           -- `''` stored over a consumed continuation line of an object
+  | card (l : PLine α)              -- instruction or atom object
+  | table (t : Tab) (l : PLine α)   -- the `SFACTable` / `FVARs` object, at the first line of its kind
+  | absorbed (t : Tab) (l : PLine α) -- later SFAC/FVAR line: index in `delete_on_write`
+deriving Repr
+
+structure St where
+  seenS : Bool := false
+  seenF : Bool := false
+  mode : Mode := .top
+deriving DecidableEq, Repr
+
+def St.seen (s : St) : Tab → Bool
+  | .sfac => s.seenS
+  | .fvar => s.seenF
+
+def St.mark (s : St) : Tab → St
+  | .sfac => { s with seenS := true }
+  | .fvar => { s with seenF := true }
+
+variable {α : Type}
+
+/-! ### model: parse -/
+
+def contMode (l : PLine α) (m : Mode) : Mode := if l.cont then m else .top
+
+/-- one iteration of the loop of `_parse_cards` -/
+def step (s : St) (l : PLine α) : Item α × St :=
+  match s.mode with
+  | .objCont => (.blanked l, { s with mode := contMode l .objCont })
+  | .rawCont => (.contKept l, { s with mode := contMode l .rawCont })
+  | .top =>
+    if l.skip then (.str l, s) else
+    match l.cls with
+    | .raw => (.str l, { s with mode := contMode l .rawCont })
+    | .obj => (.card l, { s with mode := contMode l .objCont })
+    | .atom => (.card l, { s with mode := contMode l .objCont })
+    | .tab t => (if s.seen t then .absorbed t l else .table t l, { (s.mark t) with mode := contMode l .objCont })
+
+def parseAux (s : St) : List (PLine α) → List (Item α)
+  | [] => []
+  | l :: rest => (step s l).1 :: parseAux (step s l).2 rest
+
+def parse (f : List (PLine α)) : List (Item α) := parseAux {} f
+
+/-! ### model: write -/
+
+/-- the printers of the objects (`cards.py`, `Atom.__str__`, then `wrap_line`): physical lines printed for an
+    instruction/atom object, and the groups of physical lines (one group per logical line) printed for a table -/
+structure Printer (α : Type) where
+  card : PLine α → List (PLine α)
+  table : Tab → List α → List (List (PLine α))
+
+def itemVals (t : Tab) : Item α → List α
+  | .table t' l => if t' = t then l.vals else []
+  | .absorbed t' l => if t' = t then l.vals else []
+  | _ => []
+
+/-- content of the shared table object: everything every SFAC (FVAR) line of the file added to it -/
+def tableVals (t : Tab) (items : List (Item α)) : List α := items.flatMap (itemVals t)
+
+def emit (P : Printer α) (tv : Tab → List α) : Item α → List (PLine α)
+  | .str l => if l.spliced || l.empty then [] else [l]
+  | .contKept l => if l.spliced then [] else [l]
+  | .blanked _ => []
+  | .card l => if l.spliced then [] else P.card l
+  | .table t l => if l.spliced then [] else (P.table t (tv t)).flatten
+  | .absorbed _ _ => []
+
+def write (P : Printer α) (items : List (Item α)) : List (PLine α) :=
+  items.flatMap (emit P (fun t => tableVals t items))
+
+/-- `read_string` then `write_shelx_file` -/
+def cycle (P : Printer α) (f : List (PLine α)) : List (PLine α) := write P (parse f)
+
+/-! ### model: include files -/
+
+abbrev FS (α : Type) := α → Option (List (PLine α))
+
+def includeNames (f : List (PLine α)) : List α := f.filterMap (·.incl)
+
+/-- `_find_included_files` before fixes/C07_1: the lines of the include file are inserted behind the `+name` line
+    (an unreadable file inserts nothing) and are ordinary lines from then on -/
+def spliceLineOld (fs : FS α) (l : PLine α) : List (PLine α) :=
+  match l.incl with
+  | some n => l :: (fs n).getD []
+  | none => [l]
+
+def spliceOld (fs : FS α) (f : List (PLine α)) : List (PLine α) := f.flatMap (spliceLineOld fs)
+
+def markSpliced (l : PLine α) : PLine α := { l with spliced := true }
+
+/-- repaired: the inserted lines are recorded in `delete_on_write` -/
+def spliceLineNew (fs : FS α) (l : PLine α) : List (PLine α) :=
+  match l.incl with
+  | some n => l :: ((fs n).getD []).map markSpliced
+  | none => [l]
+
+def spliceNew (fs : FS α) (f : List (PLine α)) : List (PLine α) := f.flatMap (spliceLineNew fs)
+
+/-- `read_file` + `write_shelx_file`; `none` is the `ValueError` raised when a file name is included twice -/
+def cycleNew [DecidableEq α] (P : Printer α) (fs : FS α) (f : List (PLine α)) : Option (List (PLine α)) :=
+  if (includeNames f).Nodup then some (cycle P (spliceNew fs f)) else none
+
+def cycleOld [DecidableEq α] (P : Printer α) (fs : FS α) (f : List (PLine α)) : Option (List (PLine α)) :=
+  if (includeNames f).Nodup then some (cycle P (spliceOld fs f)) else none
+
+def iterO (g : List (PLine α) → Option (List (PLine α))) : Nat → List (PLine α) → Option (List (PLine α))
+  | 0, f => some f
+  | n + 1, f => (g f).bind (iterO g n)
+
+/-! ### specification -/
+
+/-- the physical lines that start a logical line -/
+def logicalHeads : Bool → List (PLine α) → List (PLine α)
+  | _, [] => []
+  | true, l :: rest => logicalHeads l.cont rest
+  | false, l :: rest => if l.skip then logicalHeads false rest else l :: logicalHeads l.cont rest
+
+/-- (keyword, first token); for an SFAC/FVAR line the keyword only (its first token is the first entry of the
+    coalesced table) -/
+def keyOf [DecidableEq α] (kw : Tab → α) (l : PLine α) : α × Option α :=
+  if l.key.1 = kw .sfac ∨ l.key.1 = kw .fvar then (l.key.1, none) else (l.key.1, some l.key.2)
+
+def keySeq [DecidableEq α] (kw : Tab → α) (f : List (PLine α)) : List (α × Option α) :=
+  (logicalHeads false f).map (keyOf kw)
+
+/-- an SFAC/FVAR line is dropped iff an earlier line has the same keyword (`kw t` = the keyword of table `t`) -/
+def coalesceFrom [DecidableEq α] (kw : Tab → α) (before : List α) : List (α × Option α) → List (α × Option α)
+  | [] => []
+  | k :: ks =>
+    if (k.1 = kw .sfac ∨ k.1 = kw .fvar) ∧ k.1 ∈ before then coalesceFrom kw (k.1 :: before) ks
+    else k :: coalesceFrom kw (k.1 :: before) ks
+
+def coalesce [DecidableEq α] (kw : Tab → α) (ks : List (α × Option α)) : List (α × Option α) := coalesceFrom kw [] ks
+
+/-! ### number formatting (the part of the printers that is modelled in full)
+
+`'{:.nf}'.format(x)` prints the integer `roundHalfEven (x * 10^n)` with a decimal point `n` places from the right;
+reading the text back gives exactly `that integer / 10^n`. -/
+
+def roundHalfEven (x : Rat) : Int :=
+  let f := x.floor
+  let r := x - f
+  if r < 1/2 then f else if r > 1/2 then f + 1 else if f % 2 = 0 then f else f + 1
+
+/-- the digits printed by fixed-precision formatting, as the scaled integer -/
+def fmtFixed (n : Nat) (x : Rat) : Int := roundHalfEven (x * (10 : Rat) ^ n)
+
+/-- value read back from the printed text -/
+def readFixed (n : Nat) (k : Int) : Rat := (k : Rat) / (10 : Rat) ^ n
+
+/-- `chunks(l, 7)` of `FVARs.__str__` -/
+def chunksFuel : Nat → Nat → List α → List (List α)
+  | 0, _, _ => []
+  | fuel + 1, n, l => if l.isEmpty then [] else l.take (n + 1) :: chunksFuel fuel n (l.drop (n + 1))
+
+/-- chunks of `n + 1` elements -/
+def chunks (n : Nat) (l : List α) : List (List α) := chunksFuel l.length n l
+
+/-! ### lexer (driver side, `α = String`): mirrors what `_parse_cards` looks at -/
+
+def shxCards : List String :=
+  ["TITL", "CELL", "ZERR", "LATT", "SYMM", "SFAC", "UNIT", "LIST", "L.S.", "CGLS", "BOND", "FMAP", "PLAN", "TEMP",
+   "ACTA", "CONF", "SIMU", "RIGU", "WGHT", "FVAR", "DELU", "SAME", "DISP", "LAUE", "REM ", "MORE", "TIME", "END ",
+   "HKLF", "OMIT", "SHEL", "BASF", "TWIN", "EXTI", "SWAT", "HOPE", "MERG", "SPEC", "RESI", "MOVE", "ANIS", "AFIX",
+   "HFIX", "FRAG", "FEND", "EXYZ", "EADP", "EQIV", "CONN", "BIND", "FREE", "DFIX", "BUMP", "SADI", "CHIV", "FLAT",
+   "DEFS", "ISOR", "NCSY", "SUMP", "BLOC", "DAMP", "STIR", "MPLA", "RTAB", "HTAB", "SIZE", "WPDB", "GRID", "MOLE",
+   "XNPD", "REST", "CHAN", "FLAP", "RNUM", "SOCC", "PRIG", "WIGL", "RANG", "TANG", "ADDA", "STAG", "NEUT", "ABIN",
+   "ANSC", "ANSR", "NOTR", "TWST", "PART", "DANG", "BEDE", "LONE", "REM", "END"]
+
+/-- keywords whose branch always stores an object at the line's position -/
+def objKeywords : List String :=
+  ["RESI", "PART", "AFIX", "SADI", "DFIX", "SIMU", "DELU", "RIGU", "BASF", "HFIX", "DANG", "EADP", "CELL", "LATT",
+   "SYMM", "UNIT", "L.S.", "CGLS", "ANIS", "WGHT", "ACTA", "DAMP", "ABIN", "BLOC", "BOND", "BUMP", "CHIV", "CONF",
+   "CONN", "DEFS", "DISP", "EXYZ", "FLAT", "FREE", "GRID", "HKLF", "HTAB", "ISOR", "MERG", "MORE", "FMAP", "MOVE",
+   "MPLA", "NCSY", "PLAN", "PRIG", "RTAB", "SAME", "SHEL", "SIZE", "STIR", "SUMP", "SWAT", "TWIN", "WIGL", "WPDB",
+   "XNPD"]
+
+/-- keywords that store an object only for a particular number of tokens: (keyword, test, n) with
+    test 0: `len(spline) == n`, 1: `len(spline) > n`, 2: `len(spline) >= n` -/
+def guardedKeywords : List (String × Nat × Nat) :=
+  [("ZERR", 2, 8), ("BIND", 0, 3), ("FRAG", 0, 8), ("SPEC", 1, 1), ("TWST", 1, 1)]
+
+def isBlankChar (c : Char) : Bool := c = ' ' || c = '\t' || c = '\n' || c = '\r' || c = '\x0b' || c = '\x0c'
+
+/-- `str.split()` -/
+def tokensAux : List Char → List Char → List String
+  | [], cur => if cur.isEmpty then [] else [String.ofList cur.reverse]
+  | c :: cs, cur =>
+    if isBlankChar c then (if cur.isEmpty then tokensAux cs [] else String.ofList cur.reverse :: tokensAux cs [])
+    else tokensAux cs (c :: cur)
+
+def tokens (s : String) : List String := tokensAux s.toList []
+
+def takeS (n : Nat) (s : String) : String := String.ofList (s.toList.take n)
+def dropS (n : Nat) (s : String) : String := String.ofList (s.toList.drop n)
+
+def beforeBang (s : String) : String := String.ofList (s.toList.takeWhile (· ≠ '!'))
+
+/-- `float(tok) > 4.0` for a plain decimal (sign, digits, point, digits); `none`: not such a number -/
+def decimalGt4 (t : String) : Option Bool :=
+  let cs := t.toList
+  let (neg, cs) := match cs with
+    | '-' :: r => (true, r)
+    | '+' :: r => (false, r)
+    | r => (false, r)
+  let ip := cs.takeWhile Char.isDigit
+  let rest := cs.dropWhile Char.isDigit
+  let fp := match rest with
+    | '.' :: r => some r
+    | [] => some []
+    | _ => none
+  match fp with
+  | none => none
+  | some fp =>
+    if !(fp.all Char.isDigit) || (ip.isEmpty && fp.isEmpty) then none
+    else if neg then some false
+    else
+      let iv := ip.foldl (fun a c => a * 10 + (c.toNat - '0'.toNat)) 0
+      some (iv > 4 || (iv = 4 && fp.any (· ≠ '0')))
+
+/-- `Shelxfile.is_atom` on the upper-cased, comment-free logical line -/
+def isAtom (upper : String) : Bool :=
+  let word := takeS 4 upper
+  if shxCards.contains word then false else
+  let sp := tokens upper
+  if sp.length < 5 then false
+  else if (sp.getD 1 "").contains '.' then false
+  else if ((sp.drop 2).take 3).any (fun t => decimalGt4 t == some true) then false
+  else true
+
+/-- fate of a logical line (glued text): class, key, table values -/
+def classify (glued : String) : Cls × (String × String) × List String :=
+  let sp := tokens (beforeBang glued)
+  let upper := beforeBang glued.toUpper
+  let word := takeS 4 upper
+  let first := sp.getD 1 ""
+  let n := sp.length
+  if word = "RESI" ∨ word = "PART" ∨ word = "AFIX" then (.obj, (word, first), [])
+  else if isAtom upper then (.atom, ((sp.getD 0 ""), first), [])
+  else if upper.startsWith "REM" then (.obj, ("REM", first), [])
+  else if word = "SFAC" then (if n ≤ 1 then .raw else .tab .sfac, (word, first), sp.drop 1)
+  else if word = "FVAR" then (if n ≤ 1 then .raw else .tab .fvar, (word, first), sp.drop 1)
+  else if objKeywords.contains word then (.obj, (word, first), [])
+  else match guardedKeywords.find? (·.1 = word) with
+    | some (_, 0, k) => (if n = k then .obj else .raw, (word, first), [])
+    | some (_, 1, k) => (if n > k then .obj else .raw, (word, first), [])
+    | some (_, _, k) => (if n ≥ k then .obj else .raw, (word, first), [])
+    | none => (.raw, (word, first), [])
+
+/-- `misc.multiline_test` -/
+def multilineTest (line : String) : Bool :=
+  if line.contains '=' then
+    if line.startsWith "REM" then
+      -- `dsr_regex`: ^rem\s+DSR\s+(PUT|REPLACE), case insensitive
+      let t := tokens line.toUpper
+      t.getD 0 "" = "REM" && t.getD 1 "" = "DSR" && ((t.getD 2 "").startsWith "PUT" || (t.getD 2 "").startsWith "REPLACE")
+    else true
+  else false
+
+/-- text before the last `=` (`str.rpartition('=')[0]`) -/
+def beforeLastEq (s : String) : String :=
+  String.ofList ((s.toList.reverse.dropWhile (· ≠ '=')).drop 1).reverse
+
+/-- glue the logical line that starts at `head`: `line.rpartition('=')[0] + next` while `multiline_test` -/
+def glueText (head : String) : List String → String
+  | [] => head
+  | nxt :: rest =>
+    if multilineTest head then
+      -- the test is made on the *physical* line just consumed, the cut on the text glued so far
+      glueGo (beforeLastEq head ++ nxt) nxt rest
+    else head
+where
+  glueGo (acc : String) (lastPhys : String) : List String → String
+    | [] => acc
+    | nxt :: rest => if multilineTest lastPhys then glueGo (beforeLastEq acc ++ nxt) nxt rest else acc
+
+/-- the physical lines of a file as records -/
+def lexFile : List String → List (PLine String)
+  | [] => []
+  | l :: rest =>
+    let c := classify (glueText l rest)
+    { text := l, indented := l.startsWith " ", empty := l = "", cont := multilineTest l,
+      cls := c.1, key := c.2.1, vals := c.2.2,
+      incl := if l.startsWith "+" then some (dropS 1 l) else none, spliced := false } :: lexFile rest
+
+/-- a skeleton printer for the driver: an object prints one line that carries its key; a table prints one group.
+    (What the real printers print is not modelled; order, absorption and positions do not depend on it.) -/
+def skeletonPrinter (kw : Tab → String) : Printer String where
+  card l := [{ l with text := "", cont := false, spliced := false }]
+  table t vs := [[{ text := "", indented := false, empty := false, cont := false, cls := .tab t,
+                    key := (kw t, vs.headD ""), vals := vs, incl := none, spliced := false }]]
+
+def kwString : Tab → String
+  | .sfac => "SFAC"
+  | .fvar => "FVAR"
 
 end Shelx.C07
